@@ -7,6 +7,10 @@ under the ordinary interpreter nothing at all differs, for any input, option, hi
 This part re-runs the property's OWN quick check in a child `python -O` (same code, same oracles), on a coarser grid so that it costs seconds:
 every input space = its first 400 cases plus every 23rd afterwards, BFS parts to depth 1, no threads / encodings / second child.  The child's
 verdict is reported as one case of the parent; a violation quotes the child's first VIOLATION.  The child never claims exhaustiveness.
+
+The same child also runs with `-W error` - the caller's warnings filter turns every warning into an exception, as `python -W error`,
+PYTHONWARNINGS=error and pytest's `filterwarnings = error` do: a DeprecationWarning the library trips over in its own code, or a FutureWarning from a
+re-spelled regular expression, is invisible under the default filter and makes a valid call raise under this one.
 """
 import os
 import subprocess
@@ -24,7 +28,8 @@ def _check(prop):
     env = dict(os.environ, PRAATIO_SRC=SRC, VERIF_EVIDENCE_DIR=d, VERIF_REPLAY_DIR=d, VERIF_CHILD="1", VERIF_INPUT_STRIDE="23", VERIF_INPUT_DENSE="400",
                VERIF_BFS_DEPTH_CAP="1", PYTHONDONTWRITEBYTECODE="1", PYTHONHASHSEED="0")
     env.pop("PYTHONOPTIMIZE", None)
-    p = subprocess.run([sys.executable, "-O", "-B", "-m", "mc.run", prop, "quick"], cwd=ROOT, env=env, stdout=subprocess.PIPE, stderr=subprocess.PIPE,
+    env.pop("PYTHONWARNINGS", None)
+    p = subprocess.run([sys.executable, "-O", "-W", "error", "-B", "-m", "mc.run", prop, "quick"], cwd=ROOT, env=env, stdout=subprocess.PIPE, stderr=subprocess.PIPE,
                        text=True, timeout=1500)
     lines = p.stdout.splitlines()
     summary = [ln for ln in lines if ln.startswith("[" + prop + "]")]
@@ -36,7 +41,7 @@ def _check(prop):
         return max(n, 1), "ok", (prop, "python -O"), []
     k = next((i for i, ln in enumerate(lines) if ln.startswith("VIOLATION")), None)
     detail = " | ".join(x.strip() for x in lines[k + 1:k + 3]) if k is not None else (p.stderr or p.stdout)[-600:]
-    return 1, "!", None, [Viol("fails-under-python-O", f"the same quick check of {prop}, run by `python -O` (assert statements deleted) on a coarser grid, "
+    return 1, "!", None, [Viol("fails-under-python-O", f"the same quick check of {prop}, run by `python -O -W error` (assert statements deleted; warnings are errors) on a coarser grid, "
                                                        f"reports: {detail[:700]}")]
 
 
@@ -44,6 +49,6 @@ def part(prop):
     if os.environ.get("VERIF_CHILD"):
         return None
     return InputPart("interpreter-mode-python-O", lambda: [prop], _check,
-                     rule="the property's own quick check re-run in a child `python -O` (assert statements and the work inside them deleted) on a coarser "
+                     rule="the property's own quick check re-run in a child `python -O -W error` (assert statements and the work inside them deleted; every warning raised as an exception) on a coarser "
                           "grid: per input space the first 400 cases and every 23rd after them, BFS to depth 1, no thread / encoding children; the child "
                           "must exit 0", bounds={"stride": 23, "dense": 400, "bfs_depth": 1}, chunk=1)
